@@ -114,10 +114,13 @@ CHECKS = {
              'namespace has been erased, at any depth; collected_are_hoistable: numbers and ... never); tie: the model against the sequence '
              'of values the real traversal hands to get_binding (observed from outside) on templates, directed position programs and '
              'generated programs, and the references of the hoisted bindings are exactly the collected nodes. '
-             'Single assignment and strict value identity are decided by the alpha-equivalence oracle on literal templates x 11 literal '
+             'The dictionary of hoisted bindings is modelled as the grouping of the collected occurrences under the HoistedValue key (bindingsOf): '
+             'every occurrence is a reference of exactly one binding and that binding holds a constant of the same type and value '
+             '(every_occurrence_in_one_binding, binding_value_is_the_literal, different_types_never_merged); tie: against the real _hoisted dictionary. '
+             'Single assignment and strict value identity of the output are decided by the alpha-equivalence oracle on literal templates x 11 literal '
              'kinds and generated programs.',
         note='PARTIAL: the literal text of f-strings is not an expression of the model AST (the correspondence settles that the real traversal '
-             'skips it); the HoistedValue key (value identity) and the replacement step rename() are covered by the oracle, not modelled.',
+             'skips it); the replacement step rename() and should_rename are covered by the oracle (and the C17 cost theorems), not modelled here.',
         technique='Lean 4 proof (exact specification of the collecting traversal, prefix/dominance and insertion lemmas, assigner invariant) + correspondence + alpha-equivalence oracle',
         ref='§6 C06'),
     'C10': dict(
